@@ -306,6 +306,20 @@ Fixpoint consumer_segments (hd : held) (first : bool) (segs : list segment) : li
 
 Definition no_held : held := mkH (-1) 0 0.
 
+(* the failure flag listen hands to Switch: `e` is true exactly when the PREVIOUS attempt failed --
+   at Connect (`e = true` in the error branch) or in the exchange after a successful Connect
+   (`e = !s.session(c)`).  An attempt's outcome = (Connect failed, exchange failed); the first
+   pass follows the initial Connect of connectContextInner, which succeeded *)
+Definition attempt_failed (o : bool * bool) : bool := fst o || snd o.
+Definition expected_flags (outs : list (bool * bool)) : list bool := map attempt_failed outs.
+Definition flags_of (segs : list segment) : list bool := flat_map (fun sg => map ps_e (sg_passes sg)) segs.
+Fixpoint bools_prefix (a b : list bool) : bool :=      (* a is a prefix of b *)
+  match a, b with
+  | [], _ => true
+  | x :: a', y :: b' => Bool.eqb x y && bools_prefix a' b'
+  | _, [] => false
+  end.
+
 (* ---- correspondence cases ---------------------------------------------- *)
 Definition pair_eqb (a b : Z * Z) : bool := (fst a =? fst b) && (snd a =? snd b).
 Definition obs_eqb (a b : obs) : bool :=
@@ -323,8 +337,10 @@ Inductive case :=
 (* the real Session.listen over built multi-group profiles: per segment the configured groups,
    the observed order of g.entries and g.sel, the draws of the entering Next and the passes
    (e handed to Switch, draws of Switch, draws of Next); events = per Connect
-   [connector; host; s.w; s.t] *)
-| CListen (segs : list (list entry * list Z * Z * list Z * list pass)) (events : list (list Z)).
+   [connector; host; s.w; s.t];
+   outs = per attempt (Connect failed, exchange failed), attempt 0 = the initial Connect *)
+| CListen (segs : list (list entry * list Z * Z * list Z * list pass)) (events : list (list Z))
+          (outs : list (bool * bool)).
 
 Fixpoint build_segments (l : list (list entry * list Z * Z * list Z * list pass)) : option (list segment) :=
   match l with
@@ -349,9 +365,10 @@ Definition check (c : case) : bool :=
       end
   | CRaw sel ents ops outs => list_eqb obs_eqb (run sel ents None ops) outs
   | CProfile en ops outs => list_eqb obs_eqb (prun en ops) outs
-  | CListen segs events =>
+  | CListen segs events outs =>
       match build_segments segs with
       | None => false
       | Some sg => list_eqb zlist_eqb (consumer_segments no_held true sg) events
+                   && bools_prefix (flags_of sg) (expected_flags outs)
       end
   end.
